@@ -221,7 +221,19 @@ def run(ctx):
                 if ctx.ce.ext_name(m, n.func) not in ("json.dumps", "json.dump"):
                     continue
                 n_json += 1
-                kws = dict((kw.arg, kw.value) for kw in n.keywords)
+                kws = dict((kw.arg, kw.value) for kw in n.keywords if kw.arg is not None)
+                for kw in n.keywords:
+                    if kw.arg is None:
+                        # **OPTIONS: a module-level dict literal contributes its keys
+                        try:
+                            d_ = ctx.ce.eval(m, kw.value, "C20.json")
+                        except AnalysisError:
+                            d_ = None
+                        if isinstance(d_, dict):
+                            for k_ in d_:
+                                kws[k_] = ast.Constant(value=d_[k_] if isinstance(d_[k_], (int, str, type(None))) else 1)
+                        else:
+                            led.undecided("C20.json", "keyword arguments of %s at %s come from a mapping that is not a constant" % (short(n), m.where(n)))
                 indented = "indent" in kws and not (isinstance(kws["indent"], ast.Constant) and kws["indent"].value is None)
                 if py2:
                     led.check(
@@ -377,17 +389,24 @@ def run(ctx):
             led.violation("C20.order", ck, where, what + " (set order also differs between interpreters)")
 
     RG.check_hashorder(ctx, _Relabel())
-    rows, summ = RC.check_c17(ctx, _Null())
+    # the argparse namespace's __dict__ is a plain dict: iterating it (to find the version flag that
+    # was given) follows an arbitrary order on Python 2.7.  Read off the interpretation of main().
+    from ..rules_cli_sem import CliSemantics
+
+    cs = CliSemantics(ctx)
     n_order += 1
     if py2:
-        led.check(
-            not summ["plain_dict_order"],
-            "C20.order",
-            "cvss_calculator.main::%s" % short(summ["sel"]),
-            summ["module"].where(summ["sel"]),
-            "the version is chosen as the first truthy entry of args.__dict__, a plain dict: on Python 2.7 the order is "
-            "arbitrary, e.g. `-2 -j -v ...` can select 'json', fall back to 3.1 and score with CVSS3",
-        )
+        hits = [e for e in cs.events if e.kind == "plain_dict_iter" and e.module is not None and e.module.name == "cvss_calculator"]
+        for e in hits[:2]:
+            led.violation(
+                "C20.order",
+                "cvss_calculator.main::%s" % short(e.node),
+                e.where(),
+                "main() iterates a plain dict (%s): on Python 2.7 the order is arbitrary, e.g. the version taken from the first "
+                "truthy entry of args.__dict__ can be 'json' for `-2 -j -v ...`, fall back to 3.1 and score with CVSS3" % (e.data.get("what") or "vars(args)"),
+            )
+        if not hits:
+            led.ok("C20.order", "cvss_calculator.main::namespace", "cvss/cvss_calculator.py", "main() never iterates the argparse namespace or another plain dict")
     # ---- compile-only witness per installed interpreter
     paths = [m.path for _, m in sorted(ctx.repo.modules.items())]
     interps = PC.interpreters()
